@@ -14,7 +14,7 @@ class _Erase(ast.NodeTransformer):
     def visit_AnnAssign(self, n):
         self.generic_visit(n)
         if n.value is None:
-            return ast.Assign(targets=[n.target], value=ast.Constant(value=None), lineno=0, col_offset=0)
+            return None        # a bare annotation `x: T` binds nothing at run time: erasing it leaves no statement
         return ast.Assign(targets=[n.target], value=n.value, lineno=0, col_offset=0)
 
     def visit_FunctionDef(self, n):
